@@ -64,14 +64,16 @@ def flat(v):
 NEEDS = {"dut": ["u", "t", "f"], "u_f": ["u", "f"], "u_g": ["u", "g"], "echo": ["u", "t", "f", "g"], "vec": ["u", "f", "t"],
          "int": ["u", "u_integral", "g"], "intvec": ["u", "u_integral", "x", "t"], "intx": ["u", "u_integral", "x_integral"],
          "intdx": ["u", "u_integral", "x_integral"], "intdt": ["u", "u_integral", "t"],
-         "ritz": ["u", "g"], "pen": ["kappa"], "ut1": ["u", "t"]}
+         "ritz": ["u", "g"], "pen": ["kappa"], "ut1": ["u", "t"],
+         "hps": ["x", "t", "kappa", "g"], "hpd": ["x", "t", "kappa"]}
 BODY = {"dut": "_grad(u, t) - f", "u_f": "u - f", "u_g": "u - g", "echo": "2 * u + 3 * t + 5 * f + 7 * g", "vec": "_torch.cat([u - f, u + t], dim=-1)",
         "int": "u - _torch.sum(u_integral, dim=1, keepdim=True) + g",
         "intvec": "_torch.cat([u - _torch.sum(u_integral, dim=1, keepdim=True), x + t], dim=-1)",
         "intx": "u - _torch.sum(u_integral * x_integral, dim=1, keepdim=True)",
         "intdx": "u - _torch.sum(_grad(u_integral, x_integral), dim=1, keepdim=True)",
         "intdt": "u - _grad(u_integral, t)",
-        "ritz": "u * u - g", "pen": "(kappa - 3) ** 2", "ut1": "u * t + 1"}
+        "ritz": "u * u - g", "pen": "(kappa - 3) ** 2", "ut1": "u * t + 1",
+        "hps": "kappa * x + 3 * t - g", "hpd": "kappa * x - t"}
 
 
 def mk_res(kind, rev, log):
@@ -156,6 +158,19 @@ def run_one(s):
                     par = tp.models.Parameter(float(op["k"]), tp.spaces.R1("kappa"))
                     par.as_tensor.data = par.as_tensor.data.double()
                     return tp.conditions.ParameterCondition(par, mk_res("pen", False, log), 1.0)
+                if kind in ("hpms", "hpmd"):
+                    par = tp.models.Parameter(float(op["k"]), tp.spaces.R1("kappa"))
+                    par.as_tensor.data = par.as_tensor.data.double()
+                    net_ = Affine(X * T, op["model"])          # (the module to be optimised; HPM residuals do not receive its output)
+                    if kind == "hpms":
+                        return tp.conditions.HPM_EquationLoss_at_Sampler(net_, pts_sampler(), mk_res("hps", op["rev"], log),
+                                                                         data_functions={"g": g}, parameter=par)
+                    sp, cols = (X * T, (0, 1)) if op["order"] == "xt" else (T * X, (1, 0))
+                    xin = Points(torch.tensor([[float(r[cols[0]]), float(r[cols[1]])] for r in op["rows"]], dtype=torch.float64), sp)
+                    tgt = Points(torch.zeros(len(op["rows"]), 1, dtype=torch.float64), U)
+                    dl = tp.utils.PointsDataLoader((xin, tgt), batch_size=op["bs"], shuffle=False)
+                    return tp.conditions.HPM_EquationLoss_at_DataPoints(net_, dl, ("inf" if op["norm"] == 0 else op["norm"]), mk_res("hpd", False, log),
+                                                                        root=float(op["root"]), use_full_dataset=op["full"], parameter=par)
                 raise ValueError(kind)
             r = watched(build)
             if r[0] != "ok":
